@@ -21,8 +21,22 @@ Record obs_choose := {
   oc_facts : list str_fact
 }.
 
+(* what is observed when a DNS answer enters the cache *)
+Record obs_store := {
+  os_qname : str; os_qtype : N; os_scope : str;
+  os_full_path : bool;             (* true: through NormalizeAndCacheDnsResp_ (TTL in seconds; IP-literal names bypassed);
+                                      false: rememberDnsKnowledge directly with an exact deadline *)
+  os_host_is_ip : bool;            (* netip.ParseAddr(qname without trailing dot) succeeds *)
+  os_expires : Z;                  (* original deadline (absolute) for the direct form *)
+  os_ttl_s : Z;                    (* TTL in seconds of the answer for the full path *)
+  os_impl_key : str;               (* base key the implementation computed for the answer *)
+  os_impl_known : option Z         (* dnsKnowledge[base key] after the step *)
+}.
+
+Definition store_bypassed (s : obs_store) : bool := os_full_path s && os_host_is_ip s.
+
 Inductive obs_op :=
-| ORemember (key : str) (expires : Z)
+| OStore (s : obs_store)
 | OAdvance (dt : Z)
 | OChoose (c : obs_choose)
 (* chooseProxyDialer: c holds the arguments and the final target / dialIp (oc_reroute unused);
@@ -45,6 +59,10 @@ Definition optZ_eqb (a b : option Z) : bool :=
 Definition oracle_ip (facts : list str_fact) (s : str) : bool :=
   existsb (fun f => str_eqb (sf_s f) s && sf_is_ip f) facts.
 
+(* the keys the model uses for a ChooseDialTarget call: its own key function on the name *)
+Definition mkey_a (c : obs_choose) : str := lookup_key (oc_domain c) qtype_a.
+Definition mkey_aaaa (c : obs_choose) : str := lookup_key (oc_domain c) qtype_aaaa.
+
 Definition spec_domain (is_ip : str -> bool) (c : obs_choose) : str :=
   if oc_normalize c then
     match spec_sniffed_host is_ip (oc_lt c) with Some h => h | None => oc_domain c end
@@ -63,7 +81,7 @@ Definition events_of_probe (c : obs_choose) (asked : bool) : list event :=
      1 impl<>model   sub: 1 target 2 reroute 3 dial_ip 4 probe 5 real set 6 neg set 7 clock 8 normalize
      2 impl<>spec    sub: 1 reroute 2 endpoint
      3 model<>spec   sub: 1 use_name 2 reroute 3 endpoint (under the side conditions of C18_table)
-     4 library/constant model <> Go   sub: 1 SplitHostPort 2 dst.String 3 IsReserved 4 Itoa 5 ascii lower/trim 6 ParseAddr *)
+     4 library/constant model <> Go   sub: 1 SplitHostPort 2 dst.String 3 IsReserved 4 Itoa 5 ascii lower/trim 6 ParseAddr 7 cacheKey *)
 Definition err (b : bool) (n code sub : N) : list (N * N * N) := if b then [] else [(n, code, sub)].
 
 Definition check_choose (mode : dial_mode) (st : cp_state) (ievs mevs : list event) (n : N) (c : obs_choose)
@@ -71,9 +89,9 @@ Definition check_choose (mode : dial_mode) (st : cp_state) (ievs mevs : list eve
   let is_ip := oracle_ip (oc_facts c) in
   let dst := oc_dst c in
   let dom := oc_domain c in
-  let '(o, asked, st') := choose_step is_ip mode st (oc_outbound c) dst dom (oc_key_a c) (oc_key_aaaa c)
+  let '(o, asked, st') := choose_step is_ip mode st (oc_outbound c) dst dom (mkey_a c) (mkey_aaaa c)
                                       (oc_has_resolvers c) (oc_answer c) in
-  let key := if d_is4 dst then oc_key_a c else oc_key_aaaa c in
+  let key := if d_is4 dst then mkey_a c else mkey_aaaa c in
   let cls := classify is_ip dom in
   let reserved := is_reserved (oc_outbound c) in
   (* impl vs model *)
@@ -93,7 +111,8 @@ Definition check_choose (mode : dial_mode) (st : cp_state) (ievs mevs : list eve
       err (eqb reserved (oc_reserved c)) n 4 3 ++
       err (str_eqb (itoa (d_port dst)) (oc_itoa c)) n 4 4 ++
       err (if is_ascii (oc_raw c) then str_eqb (ascii_lower (ascii_trim_space (oc_raw c))) (oc_lt c) else true) n 4 5 ++
-      err (forallb (fun f => eqb (go_parse_addr (sf_s f)) (sf_is_ip f)) (oc_facts c)) n 4 6 in
+      err (forallb (fun f => eqb (go_parse_addr (sf_s f)) (sf_is_ip f)) (oc_facts c)) n 4 6 ++
+      err (if is_ascii dom then str_eqb (mkey_a c) (oc_key_a c) && str_eqb (mkey_aaaa c) (oc_key_aaaa c) else true) n 4 7 in
   (* the spec's notion of a built-in outbound: outside the user-defined range *)
   let builtin := builtin_outbound (oc_outbound c) in
   (* spec, once with what the implementation did before (ievs), once with what the model did (mevs) *)
@@ -101,7 +120,8 @@ Definition check_choose (mode : dial_mode) (st : cp_state) (ievs mevs : list eve
      spec itself reads out of the raw value (where it names one); else the value as passed *)
   let sdom := spec_domain is_ip c in
   let scls := classify is_ip sdom in
-  let ik := knowledge_now neg_ttl ievs key sdom (oc_now c) in
+  let skey := spec_key sdom (if d_is4 dst then qtype_a else qtype_aaaa) in
+  let ik := knowledge_now neg_ttl ievs skey sdom (oc_now c) in
   let mk := knowledge_now neg_ttl mevs key dom (s_now st) in
   let e2 :=
       err (eqb (oc_reroute c) (spec_reroute is_ip mode builtin scls ik)) n 2 1 ++
@@ -127,10 +147,10 @@ Definition check_dial (mode : dial_mode) (st : cp_state) (ievs mevs : list event
   let is_ip := oracle_ip (oc_facts c) in
   let dst := oc_dst c in
   let dom := oc_domain c in
-  let '(o, fin, asked, st') := choose_proxy_dialer is_ip mode st (oc_outbound c) route_to dst dom (oc_key_a c)
-                                                   (oc_key_aaaa c) (oc_has_resolvers c) (oc_answer c) in
+  let '(o, fin, asked, st') := choose_proxy_dialer is_ip mode st (oc_outbound c) route_to dst dom (mkey_a c)
+                                                   (mkey_aaaa c) (oc_has_resolvers c) (oc_answer c) in
   let in_range := fin <? n_groups in
-  let key := if d_is4 dst then oc_key_a c else oc_key_aaaa c in
+  let key := if d_is4 dst then mkey_a c else mkey_aaaa c in
   let cls := classify is_ip dom in
   let e1 :=
       err (optN_eqb (if in_range then Some fin else None) final) n 1 9 ++
@@ -144,7 +164,8 @@ Definition check_dial (mode : dial_mode) (st : cp_state) (ievs mevs : list event
       err (Z.eqb (s_now st) (oc_now c)) n 1 7 in
   let sdom := spec_domain is_ip c in
   let scls := classify is_ip sdom in
-  let ik := knowledge_now neg_ttl ievs key sdom (oc_now c) in
+  let skey := spec_key sdom (if d_is4 dst then qtype_a else qtype_aaaa) in
+  let ik := knowledge_now neg_ttl ievs skey sdom (oc_now c) in
   let mk := knowledge_now neg_ttl mevs key dom (s_now st) in
   let sfin_i := spec_final_outbound is_ip mode (builtin_outbound (oc_outbound c)) (oc_outbound c) route_to scls ik in
   let sfin (k : knowledge) := spec_final_outbound is_ip mode (builtin_outbound (oc_outbound c)) (oc_outbound c) route_to cls k in
@@ -166,12 +187,33 @@ Definition check_dial (mode : dial_mode) (st : cp_state) (ievs mevs : list event
            else true) n 3 3 in
   (e1 ++ e2 ++ e3, st', ievs ++ events_of_probe c (oc_probed c), mevs ++ events_of_probe c asked).
 
+(* a DNS answer enters the cache.  Model: its own store key (cacheKey + "|" scope, cut again) and
+   rememberDnsKnowledge / the bypass of IP-literal names; spec: "name (normal form), type resolved until e".
+   1.10: dnsKnowledge entry after the step  4.7: key  4.6: ParseAddr *)
+Definition store_apply (st : cp_state) (s : obs_store) : cp_state * str * Z :=
+  let mk := store_key (os_qname s) (os_qtype s) (os_scope s) in
+  if os_full_path s then
+    (cache_response (fun _ => os_host_is_ip s) st (os_qname s) (os_qtype s) (os_scope s) (os_ttl_s s), mk,
+     (s_now st + os_ttl_s s * 1000000000)%Z)
+  else (remember_dns_knowledge st mk (os_expires s), mk, os_expires s).
+
+Definition check_store (st : cp_state) (ievs mevs : list event) (n : N) (s : obs_store)
+  : list (N * N * N) * cp_state * list event * list event :=
+  let '(st', mk, e) := store_apply st s in
+  let es :=
+      err (if is_ascii (os_qname s) then str_eqb mk (os_impl_key s) else true) n 4 7 ++
+      err (eqb (go_parse_addr (trim_suffix_dot (os_qname s))) (os_host_is_ip s)) n 4 6 ++
+      err (optZ_eqb (assoc_get mk (s_dns st')) (os_impl_known s)) n 1 10 in
+  if store_bypassed s then (es, st', ievs, mevs)
+  else (es, st', ievs ++ [EvResolved (spec_key (os_qname s) (os_qtype s)) e], mevs ++ [EvResolved mk e]).
+
 Fixpoint check_ops (mode : dial_mode) (ops : list obs_op) (st : cp_state) (ievs mevs : list event) (n : N)
   : list (N * N * N) :=
   match ops with
   | [] => []
-  | ORemember key e :: r =>
-      check_ops mode r (remember_dns_knowledge st key e) (ievs ++ [EvResolved key e]) (mevs ++ [EvResolved key e]) (n + 1)
+  | OStore s :: r =>
+      let '(es, st', ievs', mevs') := check_store st ievs mevs n s in
+      es ++ check_ops mode r st' ievs' mevs' (n + 1)
   | OAdvance dt :: r => check_ops mode r (advance st dt) ievs mevs (n + 1)
   | OChoose c :: r =>
       let '(es, st', ievs', mevs') := check_choose mode st ievs mevs n c in
@@ -194,10 +236,10 @@ Definition b2n (b : bool) : N := if b then 1 else 0.
 
 Definition sig_choose (mode : dial_mode) (st : cp_state) (c : obs_choose) : list N * cp_state :=
   let is_ip := oracle_ip (oc_facts c) in
-  let '(o, asked, st') := choose_step is_ip mode st (oc_outbound c) (oc_dst c) (oc_domain c) (oc_key_a c)
-                                      (oc_key_aaaa c) (oc_has_resolvers c) (oc_answer c) in
+  let '(o, asked, st') := choose_step is_ip mode st (oc_outbound c) (oc_dst c) (oc_domain c) (mkey_a c)
+                                      (mkey_aaaa c) (oc_has_resolvers c) (oc_answer c) in
   let cls := classify is_ip (oc_domain c) in
-  let key := if d_is4 (oc_dst c) then oc_key_a c else oc_key_aaaa c in
+  let key := if d_is4 (oc_dst c) then mkey_a c else mkey_aaaa c in
   let '(dns, _) := has_dns_knowledge st key in
   let '(known, real, _) := lookup_real_domain_cache st (oc_domain c) in
   ([mode_code mode; b2n (is_reserved (oc_outbound c)); class_code cls; b2n (ip_like is_ip cls);
@@ -208,13 +250,13 @@ Definition sig_choose (mode : dial_mode) (st : cp_state) (c : obs_choose) : list
 Fixpoint sig_ops (mode : dial_mode) (ops : list obs_op) (st : cp_state) : list (list N) :=
   match ops with
   | [] => []
-  | ORemember key e :: r => sig_ops mode r (remember_dns_knowledge st key e)
+  | OStore s :: r => let '(st', _, _) := store_apply st s in sig_ops mode r st'
   | OAdvance dt :: r => sig_ops mode r (advance st dt)
   | OChoose c :: r => let '(s, st') := sig_choose mode st c in s :: sig_ops mode r st'
   | ODial c rt ng fin :: r =>
       let '(s, _) := sig_choose mode st c in
       let '(_, f, _, st') := choose_proxy_dialer (oracle_ip (oc_facts c)) mode st (oc_outbound c) rt (oc_dst c) (oc_domain c)
-                                                 (oc_key_a c) (oc_key_aaaa c) (oc_has_resolvers c) (oc_answer c) in
+                                                 (mkey_a c) (mkey_aaaa c) (oc_has_resolvers c) (oc_answer c) in
       (s ++ [1 + b2n (negb (f =? oc_outbound c)) + 2 * b2n (is_reserved f)]) :: sig_ops mode r st'
   end.
 
